@@ -62,6 +62,17 @@ def run(ctx):
         bad = bytearray(ix); bad[rng.randrange(len(bad))] ^= 1 << rng.randrange(8)
         inputs.append((7, 0, bytes(bad), 'index-damaged', False))
         inputs.append((7, 0, ix[:rng.randrange(len(ix))], 'index-truncated', False))
+    # .lzma streams serialised by the model encoder from arbitrary symbol sequences, valid and invalid from some symbol on
+    orc = oracle()
+    gl = []
+    for _ in range(40 if ctx.quick() else 1200):
+        lc = rng.randrange(5); lp = rng.randrange(5 - lc); pb = rng.randrange(5)
+        toks = xzgen.gen_symbols(rng, rng.choice([1, 2, 3, 8, 30, rng.randrange(1, 100)]), p_bad=rng.choice([0, 0.5, 1.0]))
+        gl.append(('lzmaenc %d %d %d %s' % (lc, lp, pb, ' '.join(toks)), lc, lp, pb))
+    go, gf = run_lines(orc, [g[0] for g in gl])
+    if gf: raise BuildError('oracle failed %r' % (gf[0],))
+    for (cmd, lc, lp, pb), hx in zip(gl, go):
+        inputs.append((3, 0, xzgen.alone_wrap(bytes.fromhex(hx), lc, lp, pb), 'lzma-model-generated:' + cmd[8:120], False))
     # corpus of recorded findings (known/): run first, classified by key
     import json as _json
     for kp in sorted(glob.glob(os.path.join(VERIF, 'known', 'C06-*.json'))):
